@@ -539,6 +539,16 @@ func runRepeatedSpecials() {
 		"~{<:Ky~}", "~~", "+AGE-", "+ZeVnLIqe-", "a+-b", "\ufeffBOM first", "mid\ufeffBOM", "\ufffe", "\ufffd",
 		// Latin-1 texts whose single-byte form is well-formed UTF-8 (mojibake look-alikes)
 		"\u00c3\u00a9", "n\u00c2\u00b01", "\u00e2\u0082\u00ac5", "caf\u00c3\u00a9", "\u00c3\u00a9\u00c3\u00a9\u00c3\u00a9", "\u00c3\u00a9\u00e9", "\u00d0\u009f\u00d1\u0080")
+	// character COUNTS that are multiples of 256 (and their neighbours): tallies of the charset guess
+	for _, n := range []int{127, 128, 255, 256, 257, 511, 512, 513, 768, 1024} {
+		texts = append(texts, strings.Repeat("\u00e9", n))
+		if n <= 768 {
+			texts = append(texts, strings.Repeat("\u20ac", n), "text "+strings.Repeat("\u00e9", n/2)+" and "+strings.Repeat("\u20ac", n-n/2))
+		}
+		if n <= 512 {
+			texts = append(texts, strings.Repeat("\U0001F600", n))
+		}
+	}
 	css := []string{"", "UTF-8", "ISO-8859-1", "Shift_JIS"}
 	chk.Range(fmt.Sprintf("(b'') repeated and escape-like characters: every printable ASCII character doubled, tripled, quadrupled and in three mixed texts, and %d escape-like sequences (backslashes, \\000026, symbology identifiers, %%-escapes, entities, control characters, ISO-2022 / HZ / UTF-7 designators, byte-order marks) x charset hint {none, UTF-8, ISO-8859-1, Shift_JIS}: write -> read == text [%d texts]", len(texts)-95*6, len(texts)), len(texts),
 		func(i int) string { return fmt.Sprintf("%q", texts[i]) },
@@ -547,6 +557,48 @@ func runRepeatedSpecials() {
 				smallCase(l, texts[i], opt{Level: 1, Mask: -1, Charset: cs})
 			}
 		})
+}
+
+// (b3) every value of every packed group: numeric mode packs three digits into 10 bits, a final
+// pair into 7 and a final single digit into 4; alphanumeric mode packs two characters into 11 bits
+// and a final one into 6. Every digit string of length 1..3, every two-digit and one-digit tail
+// behind 3 and 6 digits, every alphanumeric pair and every single alphanumeric tail behind a pair.
+func runPackedGroups() {
+	var texts []string
+	for n := 1; n <= 3; n++ {
+		for v := 0; v < pow10i(n); v++ {
+			texts = append(texts, fmt.Sprintf("%0*d", n, v))
+		}
+	}
+	for v := 0; v < 100; v++ {
+		texts = append(texts, fmt.Sprintf("123%02d", v), fmt.Sprintf("987654%02d", v))
+	}
+	for v := 0; v < 10; v++ {
+		texts = append(texts, fmt.Sprintf("123%d", v), fmt.Sprintf("987654%d", v))
+	}
+	const alnum = "0123456789ABCDEFGHIJKLMNOPQRSTUVWXYZ $%*+-./:"
+	for _, a := range alnum {
+		for _, b := range alnum {
+			texts = append(texts, "A"+string(a)+string(b)+"Z") // A? ?Z: both positions of a pair
+		}
+		texts = append(texts, "AB"+string(a), "A"+string(a))
+	}
+	const chunk = 64
+	chk.Range(fmt.Sprintf("(b3) every value of every packed group: all digit strings of length 1..3, every two- and one-digit tail behind 3 and 6 digits, every alphanumeric pair inside a text and every alphanumeric tail: write -> read == text [%d texts]", len(texts)), (len(texts)+chunk-1)/chunk,
+		func(i int) string { return fmt.Sprintf("%q", texts[i*chunk]) },
+		func(l *mc.Local, i int) {
+			for k := i * chunk; k < (i+1)*chunk && k < len(texts); k++ {
+				smallCase(l, texts[k], opt{Level: 1, Mask: -1})
+			}
+		})
+}
+
+func pow10i(n int) int {
+	p := 1
+	for ; n > 0; n-- {
+		p *= 10
+	}
+	return p
 }
 
 // (a”) numeric and alphanumeric texts AT CAPACITY together with a character-set hint. The hint
@@ -819,6 +871,7 @@ func main() {
 	runSmall()
 	runLookalikes()
 	runRepeatedSpecials()
+	runPackedGroups()
 	runHintedCapacity()
 	chk.Sample("small", rcase{Sub: "small", Text: "漢\x00", Level: 3, Mask: 5, Version: 1, Charset: "Shift_JIS"})
 
